@@ -2,6 +2,10 @@ import MythVerif.Proofs.WsQueueTsoStepO1
 import MythVerif.Proofs.WsQueueTsoStepO2
 import MythVerif.Proofs.WsQueueTsoStepO3
 import MythVerif.Proofs.WsQueueTsoStepO4
+import MythVerif.Proofs.WsQueueTsoStepR1
+import MythVerif.Proofs.WsQueueTsoStepR2
+import MythVerif.Proofs.WsQueueTsoStepR3
+import MythVerif.Proofs.WsQueueTsoStepF8
 import MythVerif.Proofs.WsQueueTsoStepU1
 import MythVerif.Proofs.WsQueueTsoStepU2
 import MythVerif.Proofs.WsQueueTsoStepT1
@@ -29,6 +33,12 @@ theorem stepO_inv (s s' : St) : Inv s → stepO s = some s' → Inv s' := by
   | stuck => simp [stepO, hpc] at hs
   | pu0 e => exact o_pu0 s s' e h hpc hs
   | pu0f e t => exact o_pu0f s s' e t h hpc hs
+  | pul e => exact o_pul s s' e h hpc hs
+  | pub e => exact o_pub s s' e h hpc hs
+  | pum e off => exact o_pum s s' e off h hpc hs
+  | pus e off => exact o_pus s s' e off h hpc hs
+  | puv e off => exact o_puv s s' e off h hpc hs
+  | pux e t => exact o_pux s s' e t h hpc hs
   | pu1 e t => exact o_pu1 s s' e t h hpc hs
   | pu2 e t => exact o_pu2 s s' e t h hpc hs
   | pq => exact o_pq s s' h hpc hs
@@ -47,6 +57,10 @@ theorem stepO_inv (s s' : St) : Inv s → stepO s = some s' → Inv s' := by
   | stuckL => simp [stepO, hpc] at hs
   | ptl e => exact o_ptl s s' e h hpc hs
   | pt1 e => exact o_pt1 s s' e h hpc hs
+  | pt2 e => exact o_pt2 s s' e h hpc hs
+  | pt3 e off => exact o_pt3 s s' e off h hpc hs
+  | pt4 e off => exact o_pt4 s s' e off h hpc hs
+  | pt5 e off => exact o_pt5 s s' e off h hpc hs
   | pt6 e => exact o_pt6 s s' e h hpc hs
   | pt7 e b => exact o_pt7 s s' e b h hpc hs
   | pt8 e b => exact o_pt8 s s' e b h hpc hs
@@ -133,6 +147,7 @@ theorem flushO_inv (s s' : St) : Inv s → step s .flushO = some s' → Inv s' :
     | ptr i x => exact f_O_ptr s s' i x rest h hb hs.symm
     | unlock => exact f_O_unlock s s' rest h hb hs.symm
     | baseI v e => exact f_O_baseI s s' v e rest h hb hs.symm
+    | shift lo hi off => exact f_O_shift s s' lo hi off rest h hb hs.symm
   · simp at hs
 
 theorem step_inv (s : St) (l : Lbl) (s' : St) : Inv s → step s l = some s' → Inv s' := by
